@@ -11,7 +11,6 @@ import (
 	"encoding/json"
 	"fmt"
 	"hash/fnv"
-	"os"
 	"sort"
 	"strings"
 	"testing"
@@ -41,15 +40,7 @@ const (
 )
 
 func c17mExcluded(id string) bool {
-	if vh.OpenFinding("C17", id) {
-		return true
-	}
-	for _, x := range strings.Split(os.Getenv("VERIF_C17_EXCLUDE"), ",") {
-		if x == id || x == "all" {
-			return true
-		}
-	}
-	return false
+	return vh.OpenFinding("C17", id)
 }
 
 var c17mKeys = []string{"a", "ab", "b", "abc", "a.b", "a b", `a"b`, "é", "k", "kk", "c", "a0", "B", "z"}
@@ -698,6 +689,11 @@ func c17mCase(rt *rapid.T, rec *vh.Recorder) (kind, msg string) {
 		h := fnv.New64a()
 		_, _ = h.Write([]byte(c17mText(base) + "|" + c17mText(left) + "|" + c17mText(right)))
 		desc := fmt.Sprintf("base %016x (%d bytes) repr=%v left[%s] right[%s] -> conflict=%v", h.Sum64(), len(c17mText(base)), repr, strings.Join(editsL, "; "), strings.Join(editsR, "; "), wantConflict != nil)
+		for _, c := range classes {
+			if strings.HasPrefix(c, "excluded:") {
+				rec.Excluded(1)
+			}
+		}
 		rec.Case(desc, lDiff && rDiff && nested, classes...)
 	}
 	return "", ""
